@@ -413,8 +413,8 @@ func msgViews(msg []byte) string {
 
 // ---------------------------------------------------------------- message catalogue
 
-func uptr(v uint) *uint { return &v }
-func bptr(v bool) *bool { return &v }
+func uptr(v uint) *uint     { return &v }
+func bptr(v bool) *bool     { return &v }
 func sptr(v string) *string { return &v }
 
 func helloMsg(phase string, waiting *uint, prolong *bool) []byte {
